@@ -282,3 +282,16 @@ func VerifBan(addr string) {
 	p := EngineGlobal.ProxyPool[addr]
 	p.AutoBanFlag = true
 }
+
+// SortedServers returns the backend connections ordered by address, then by dial sequence. Harnesses
+// iterate in this order (not in dial order, which depends on Go's map iteration order in OnCReact)
+// so that the same inputs mean the same thing in the interpreter and in a native run.
+func (w *VerifWorld) SortedServers() []*VerifConn {
+	out := append([]*VerifConn{}, w.Servers...)
+	for i := 1; i < len(out); i++ {
+		for j := i; j > 0 && (out[j].Addr < out[j-1].Addr || (out[j].Addr == out[j-1].Addr && out[j].Seq < out[j-1].Seq)); j-- {
+			out[j], out[j-1] = out[j-1], out[j]
+		}
+	}
+	return out
+}
